@@ -43,7 +43,7 @@ CONFIG = {
                  'states:frozenset', 'labels:nonstring', 'labels:lookalike',
                  'atoms:absent', 'atoms:quoted', 'depth:>=50', 'logic:CTL',
                  'logic:LTL', 'logic:CTLS', 'ctls:fresh_atom_collision',
-                 'labels:spell_fresh_atoms', 'chain:AG', 'chain:EU',
+                 'labels:spell_fresh_atoms', 'chain:AG', 'chain:EU', 'with_F',
                  'chain:not'],
     'rule': ('cases = (structure with heterogeneous state names / label '
              'values, formula, logic, style); generated from seeded random '
@@ -61,8 +61,9 @@ CONFIG = {
 }
 
 LOOKALIKES = ['not p', '(p or q)', 'A', 'true', 'fair', 'fair0', '[A(F(p))]',
-              '[[A(F(p))](0)]', 'E', 'X', 'p U q', '', ' ', 'p ', '-->',
-              "p'"]
+              '[[A(F(p))](0)]', 'E', 'X', 'p U q', ' ', 'p ', '-->',
+              "p'", '\\users\\bob', 'a\\b', '\\x', 'tab\\t', '\\N{dash}',
+              'caf\u00e9', '']
 NONSTRINGS = [1, 0, ('t', 1), frozenset(['z']), 3.5, None, True]
 
 NAMERS = {
@@ -77,10 +78,25 @@ NAMERS = {
 }
 
 
+def _has_R(t):
+    if t[0] in ('ap', 'bool'):
+        return False
+    return t[0] == 'R' or any(_has_R(x) for x in t[1:])
+
+
 def judge(c):
-    if c.nested or c.F is not None or c.nk is None:
+    if c.nested or c.nk is None:
         return
     t = c.denoted()
+    if c.F is not None:
+        # with fairness constraints only the part of this property that the
+        # known fairness findings (C15: D5, D6) leave intact is judged here:
+        # CTL / CTL* queries without release operators
+        if c.logic == 'LTL' or t is None or _has_R(t) or \
+                c.Fmasks is None:
+            LOG.counters['c19.F_call_not_judged'] += 1
+            return
+        LOG.sig['with_F'] += 1
     if t is None or not reflang.well_formed(t) or \
             not reflang.checkable(t, c.logic):
         LOG.counters['c19.out_of_domain'] += 1
@@ -199,7 +215,7 @@ def make_formula(r, logic):
         atoms = ['p', 'absent_atom', 'q']
         flags.add('atoms:absent')
     elif k < 0.6:
-        atoms = ['p', r.choice(LOOKALIKES[:12]), 'q']
+        atoms = ['p', r.choice(LOOKALIKES[:21]), 'q']
         flags.add('atoms:quoted')
     if r.random() < 0.12:
         d = r.choice([50, 70, 100])
@@ -282,7 +298,8 @@ def one_case(r, i):
         LOG.sig[f] += 1
     L = lang(logic)
     style = 'text' if (i % 5 == 0 and 'depth:>=50' not in fflags and
-                       not any('"' in a or '\\' in a for a in
+                       not any('"' in a or a.endswith('\\') or a == ''
+                               for a in
                                __import__('vmon.neutral', fromlist=['x'])
                                .atoms_of(t))) else 'obj'
     try:
@@ -303,6 +320,28 @@ def one_case(r, i):
         return L.modelcheck(K, f)
     fresh_relation(K, call, {'K': nk2.to_json(), 'formula': t,
                              'logic': logic, 'style': style}, i % 3)
+    if logic != 'LTL' and i % 4 == 1 and 'depth:>=50' not in fflags:
+        # the same query under fairness constraints (answers are not judged
+        # for exactness here, only for being fresh sets of states)
+        sts = list(K.states())
+        F = [set(r.sample(sts, r.randint(1, len(sts))))
+             for _ in range(r.randint(0, 2))]
+
+        def tr(x):
+            if x[0] in ('ap', 'bool'):
+                return x
+            return (('U',) if x[0] == 'R' else (x[0],)) + \
+                tuple(tr(y) for y in x[1:])
+        t2 = tr(t)
+        try:
+            f2 = build(L, t2, raw_leaves=(i % 2 == 0))
+            fresh_relation(K, lambda: L.modelcheck(K, f2, F=[set(P) for P
+                                                              in F]),
+                           {'K': nk2.to_json(), 'formula': t2,
+                            'logic': logic, 'F': [sorted(map(repr, P))
+                                                  for P in F]}, i % 3)
+        except Exception:
+            pass
     if nontrivial:
         LOG.mark_nontrivial((nk2.key(), tuple(map(repr, nk2.states)), t,
                              logic))
